@@ -367,23 +367,42 @@ def main(tier, replay=None):
     rng = random.Random(run.seed)
     if quick:
         hists = rng.sample(hists, 500)
-    traces = []
+    # the traces are replayed and validated chunk by chunk: the whole thorough tier at once held over 20 GB of events
+    CH = 400
+    count = [0]
+    first = []
+    pending = []
+
+    def flush(force=False):
+        while len(pending) >= CH or (force and pending):
+            part = pending[:CH]
+            del pending[:CH]
+            core.validate_hist(run, part, 'p%d' % flush.n, consts, engine='c02')
+            flush.n += 1
+    flush.n = 0
+
+    def add(h, debug):
+        count[0] += 1
+        t = replay_history(lib, count[0], h, debug)
+        if not first:
+            first.append(t['case'])
+        pending.append(t)
+        flush()
+
     for h in hists:
-        traces.append(replay_history(lib, len(traces) + 1, h, bool(len(traces) % 2)))
-        if len(traces) % 3 == 0:       # the same history with a rebinding after its first evaluation
+        add(h, bool(count[0] % 2))
+        if count[0] % 3 == 0:       # the same history with a rebinding after its first evaluation
             h2 = [h[0], rng.choice(sorted(REBIND))] + list(h[1:])
-            traces.append(replay_history(lib, len(traces) + 1, h2, bool(len(traces) % 2)))
+            add(h2, bool(count[0] % 2))
     kinds = sorted(KIND) + sorted(REBIND)
     for _ in range(60 if quick else 1500):      # longer random histories
         h = [rng.choice(kinds) for _ in range(rng.randint(5, 30))]
-        traces.append(replay_history(lib, len(traces) + 1, h, rng.random() < 0.5))
+        add(h, rng.random() < 0.5)
     # stamina: a long-lived parser after failed evaluations and tens of thousands of function calls still answers as a fresh one
     STAMINA[0] = 4000 if quick else 40000
     for debug in (False, True):
-        traces.append(replay_history(lib, len(traces) + 1, ['stamina'], debug))
-    CH = 400
-    for k in range(0, len(traces), CH):
-        core.validate_hist(run, traces[k:k + CH], 'p%d' % (k // CH), consts, engine='c02')
+        add(['stamina'], debug)
+    flush(force=True)
     obs = host_obs(lib, names, rng, quick) + census_obs(lib, quick)
     for n, o in enumerate(obs, 1):
         o['id'] = n
@@ -395,5 +414,5 @@ def main(tier, replay=None):
         v = core.validate_obs(run, 'Trace_C02', part, 'h%d' % (k // CH), {'Slack': '60'})
         core.tally(run, part, v, 'c02')
     run.exhaustive = True
-    run.samples = [{'case': traces[0]['case']}, {'host': obs[10]['in']}, {'census': obs[-1]['in'], 'series': obs[-1]['series']}]
+    run.samples = [{'case': first[0]}, {'host': obs[10]['in']}, {'census': obs[-1]['in'], 'series': obs[-1]['series']}]
     return run.finish()
